@@ -152,3 +152,68 @@ reg(
     simple("c18"),
     exhaustive={"quick": False, "thorough": False},
 )
+
+reg(
+    "C05",
+    "Rendered styles are pure SGR and round-trip through SGR interpretation",
+    "exploration",
+    "cases = style values rendered through Display, {:#}, render(), render_reset(), write_to, write_reset_to, Color::render_fg/bg, "
+    "Effects::render and Reset, a subset also under a grid of ~240 width/fill/align/precision/sign/zero/alternate format specs; the bytes "
+    "are parsed by RefVt and interpreted by RefSgr (each underline code its own flag); exhaustive over all 4096 effect sets, all 16+256 "
+    "colours per slot and all 256 values of each RGB component per slot (distinct by construction) plus seeded random full styles "
+    "(distinct by hash); non-trivial = the style is not the plain style",
+    [A_REFVT, A_REFSGR, "each rendered underline code (4, 21, 4:3, 4:4, 4:5) is read as its own flag of the set-valued Effects type, otherwise no interpretation could round-trip all 4096 sets - DESIGN 8.4"],
+    simple("c05"),
+)
+
+reg(
+    "C10",
+    "Lossy colour conversion is total, exact on exact matches and nearest otherwise",
+    "exploration",
+    "cases = (colour, palette) pairs through all eight conversion functions and Palette::get/index; reference = own xterm-256 formula, "
+    "re-typed VGA/Win10 tables, own integer red-mean distance and first-minimum argmin; quick: lattice of step 5 + seeded random colours "
+    "(half of them within +-3 of a candidate) x {VGA, Win10, 8 seeded random palettes with duplicates / all-equal / extreme entries}; "
+    "thorough: all 2^24 RGB values x 6 palettes; all 16 colours, 256 indices and exact palette entries always; non-trivial = every "
+    "(colour, palette) evaluation; lattice / full enumeration distinct by construction, random by hash",
+    ["the red-mean metric is taken with the integer weights the crate documents: (1024+rs)*dr^2 + 1024*dg^2 + (1534-rs)*db^2, rs = r1+r2 - DESIGN 8.10"],
+    simple("c10"),
+    exhaustive={"quick": False, "thorough": True},
+)
+
+reg(
+    "C11",
+    "The git colour parser accepts exactly git's syntax and denotes the right style",
+    "exploration",
+    "cases = strings passed to anstyle_git::parse and compared with an independent recogniser/denotation (accept <=> accept, same style, "
+    "same error variant + word + whole input) and a print/parse round trip; exhaustive 1- and 2-word combinations x case variants x "
+    "separators, all '#'+3/6 character words over a 10-character alphabet, all single edits of vocabulary words (distinct by "
+    "construction), seeded sentences, printed expressible styles and arbitrary Unicode (distinct by hash); non-trivial = not blank",
+    ["a sign in front of a number (+5) and letters whose Unicode lower-casing is ASCII (KELVIN SIGN, dotted capital I) are checked for 'no panic' only - DESIGN 8.6",
+     "'#rgb' denotes single-digit components (r,g,b), as the crate's tests pin it", "any number of leading zeros is accepted for 0-255"],
+    simple("c11"),
+)
+
+reg(
+    "C12",
+    "The LS_COLORS parser applies SGR codes left to right",
+    "exploration",
+    "cases = strings passed to anstyle_ls::parse and compared with an independent left-to-right interpreter over its own table of the "
+    "recognised codes; exhaustive lists of 1-2 units over 0..=110 + 18 extended-colour forms and 3 codes over a 40-code subset (quick) / "
+    "0..=110 (thorough) (distinct by construction), seeded well-formed lists up to 40 codes with leading zeros and malformed lists "
+    "(distinct by hash); non-trivial = not empty",
+    ["signed fields (+5) and truncated 38/48/58 forms are outside the statement: checked for 'no panic' only - DESIGN 8.6"],
+    simple("c12"),
+)
+
+reg(
+    "C13",
+    "Style, effects and colour values obey their algebra",
+    "exploration",
+    "cases = all 4096 x 4096 pairs of effect sets (insert, remove, contains, set, |, -, |=, -=, ==, Style | / - / ==), all 4096 sets "
+    "(iteration order, Debug, clear, is_plain, convenience methods), all 16 colours and 256 indices, against a u16 bit-set model built "
+    "only from contains() observations of the twelve public constants; seeded random style pairs for the setter/getter laws; "
+    "non-trivial = every pair; pairs distinct by construction, random styles by hash",
+    [],
+    simple("c13"),
+    exhaustive={"quick": True, "thorough": True},
+)
